@@ -621,3 +621,47 @@ def exact_py(a, b):
             return 1 if x > 0 else -1
         return -1 if y > 0 else 1
     return (fx > fy) - (fx < fy)
+
+
+# ----------------------------------------------------------------------------- translator validation
+def validate(sess, rp):
+    """concrete numbers through the encoding (operands fixed, solver asked for equals / compare) and through the native build"""
+    import struct as _struct
+    global BIGW
+    BIGW = 64
+    prev = sess.decider.logic
+    vals = {'S': [0, 1, -1, 7, I32_MAX, I32_MIN],
+            'B': [I32_MAX + 1, I32_MIN - 1, 1 << 53, (1 << 53) + 1, -(1 << 53) - 1, (1 << 61) + 3],
+            'F': [0.0, -0.0, 1.0, -1.0, 0.5, 7.0, 2147483647.0, 2147483648.0, -2147483649.0, float(1 << 53), float((1 << 53) + 2), 1e300, float('inf'), float('-inf'), float('nan')]}
+    f2b = lambda f: _struct.unpack('<Q', _struct.pack('<d', f))[0]
+    cases, meta = [], []
+    for kx, ky in itertools.product(KINDS, repeat=2):
+        tw = Tower(sess)
+        x, y = tw.opnd(kx, 'x'), tw.opnd(ky, 'y')
+        exy, cxy = tw.equals(x, y), tw.compare(x, y)
+        s = z3.SolverFor('QF_FPBV')
+        for lm in tw.lemmas():
+            s.add(lm)
+        for vx in vals[kx]:
+            for vy in vals[ky]:
+                s.push()
+                for o, v in ((x, vx), (y, vy)):
+                    if o.kind == 'F':
+                        s.add(o.t == z3.fpBVToFP(z3.BitVecVal(f2b(v), 64), F64))
+                    else:
+                        s.add(o.t == z3.BitVecVal(v, o.t.size()))
+                if s.check() != z3.sat:
+                    s.pop()
+                    continue
+                m = s.model()
+                e = z3.is_true(m.eval(exy, model_completion=True))
+                c = m.eval(cxy, model_completion=True).as_signed_long()
+                s.pop()
+                var = lambda o, v: ({'float_bits': '0x%016x' % f2b(v)} if o.kind == 'F' else {'int': str(v)})
+                cases.append({'kind': 'eval', 'program': 'def f(x, y):\n    return (x == y, x < y, x > y)\nf(x, y)', 'vars': {'x': var(x, vx), 'y': var(y, vy)}})
+                meta.append((f'{kx}:{vx!r} vs {ky}:{vy!r}', str((e, c < 0, c > 0))))
+        tw.done()
+    sess.decider.logic = prev
+    res = rp.run(cases, 'dev')
+    mism = [f'{what}: encoding says {exp}, native build says {str(g)[:100]}' for (what, exp), g in zip(meta, res) if g.get('ok') != exp]
+    return len(cases), mism
